@@ -485,6 +485,11 @@ class FuncAnalysis:
                 self.effect(base, (t.attr,), "attr", s, env)
 
     def s_Assign(self, s, env):
+        if isinstance(s.value, ast.IfExp) and isinstance(s.value.body, ast.Attribute) and isinstance(s.value.orelse, ast.Attribute) \
+                and len(s.targets) == 1 and isinstance(s.targets[0], ast.Name):
+            # `update = self.modify if inplace else self.copy_with`: a conditional method alias; calls through it are the
+            # conditional expression of the two calls
+            self.__dict__.setdefault("method_alias", {})[s.targets[0].id] = s.value
         refs = self.expr(s.value, env)
         self.note_libfn(s)
         for t in s.targets:
@@ -1227,6 +1232,16 @@ class FuncAnalysis:
             return argrefs
 
         # ---- plain names
+        if isinstance(fn, ast.Name) and fn.id in getattr(self, "method_alias", {}):
+            alias = self.method_alias[fn.id]
+            synth = ast.IfExp(test=alias.test,
+                              body=ast.Call(func=alias.body, args=call.args, keywords=call.keywords),
+                              orelse=ast.Call(func=alias.orelse, args=call.args, keywords=call.keywords))
+            ast.copy_location(synth, call)
+            ast.copy_location(synth.body, call)
+            ast.copy_location(synth.orelse, call)
+            ast.fix_missing_locations(synth)
+            return self.expr(synth, env)
         if isinstance(fn, ast.Name):
             n = fn.id
             if n == "cls" and self.f.is_classmethod and self.f.cls is not None:
